@@ -178,6 +178,7 @@ impl SchedSim {
             record_sites: true,
         };
         ctx.evals += 1;
+        crate::engine::tick();
         let out = sched::run(cfg, programs);
 
         // ---- oracles ----
